@@ -141,7 +141,55 @@ def node_exprs_(nd):
     return node_exprs(nd)
 
 
+def r20_8(prog: Program, rep):
+    """Line framing of a config file is by LF only (a CR inside a quoted value is data; `\\`-LF continues a line): the reader
+    takes lines from the file iterator / split(b"\n"), never splitlines()."""
+    from sa.common import exact_separator_discipline
+    exact_separator_discipline(rep, "R20.8", prog.module(CFG_PY))
+    ff = prog.module(CFG_PY).funcs.get("ConfigFile.from_file")
+    if ff is None:
+        raise AnalysisError("ConfigFile.from_file not found")
+    src = norm(ff.node, 100000)
+    rep.ob("R20.8", CFG_PY, ff.qual, "lines come from the file's own LF framing (readlines / iteration)", "readlines()" in src or "for line in f" in src or "in f:" in src,
+           "", ff.node.lineno)
+
+
+def _unescape_replaces(fnode: ast.AST, folder) -> list[tuple[bytes, bytes, int]]:
+    out = []
+    for c in ast.walk(fnode):
+        if isinstance(c, ast.Call) and isinstance(c.func, ast.Attribute) and c.func.attr == "replace" and len(c.args) >= 2:
+            a, b = folder.try_fold(c.args[0]), folder.try_fold(c.args[1])
+            if isinstance(a, bytes) and isinstance(b, bytes) and len(a) == 2 and a[:1] == b"\\" and len(b) == 1:
+                out.append((a, b, c.lineno))
+    return out
+
+
+def r20_9(prog: Program, rep):
+    """Un-escaping is ONE left-to-right tokenising pass.  A chain of .replace() calls that maps two-byte escapes back cannot
+    invert the writer, whatever its order: in the file text `\\\\n` (escaped backslash, letter n) one of the links sees `\\n`."""
+    m = prog.module(CFG_PY)
+    F = Folder(prog, m)
+    probe = ast.parse("def f(v):\n    return v.replace(b'\\\\n', b'\\n').replace(b'\\\\\\\\', b'\\\\')\n")
+    if len(_unescape_replaces(probe, Folder(prog, m))) != 2:
+        raise AnalysisError("R20.9 detector self-check failed")
+    n = 0
+    for q, f in m.funcs.items():
+        if "#" in q:
+            continue
+        n += 1
+        un = _unescape_replaces(f.node, F)
+        olds = {a for a, _, _ in un}
+        bad = b"\\\\" in olds and len(olds) >= 2
+        if un or q in ("_parse_string", "_unescape_subsection"):
+            rep.ob("R20.9", CFG_PY, q, "escapes are undone in one tokenising pass, not by chained replace()", not bad,
+                   f"`replace` does not tokenise: with {sorted(olds)} undone one after the other, the text `\\\\n` (an escaped backslash followed by "
+                   f"the letter n, as _escape_value writes `\\n`) is read back as a line feed or as backslash+LF instead of backslash+n",
+                   un[0][2] if un else f.node.lineno)
+
+
 def run(prog: Program, rep, tier="quick"):
+    rep.rule("R20.9", "readers undo escapes in one tokenising pass; no chained replace() un-escaping that includes the backslash escape")
+    rep.rule("R20.8", "line framing by LF only: no splitlines() / argument-less split() in config.py")
     rep.rule("R20.7", "presence of a subsection by identity (empty != absent); the multi-value store's two representations are updated together")
     rep.rule("R20.1", "TABLE-AGREE: reader escape table inverts every escape the writer emits; backslash escaped first")
     rep.rule("R20.2", "every byte special to the reader outside quotes (anywhere / at an edge) is escaped or forces quoting")
@@ -338,8 +386,50 @@ def run(prog: Program, rep, tier="quick"):
         rep.ob("R20.3", CFG_PY, q, "quote-toggling scanner skips the byte after a backslash", knows_backslash,
                "this scanner toggles its in-quotes flag on every '\"' but never looks at '\\': an escaped quote written by "
                "_escape_subsection flips it, and a following '#' or ';' is then taken for a comment", f.node.lineno)
+    # the same scanners written as a regular expression: a pattern that knows the quote must know the backslash too
+    import re._parser as rp  # regex syntax trees (stdlib)
+
+    def _lits(tree, acc):
+        for op, av in tree:
+            if str(op) in ("LITERAL", "NOT_LITERAL"):
+                acc.add(av)
+            elif str(op) == "IN":
+                _lits(av, acc)
+            elif str(op) == "RANGE":
+                acc.update(range(av[0], av[1] + 1))
+            elif str(op) in ("MAX_REPEAT", "MIN_REPEAT", "POSSESSIVE_REPEAT"):
+                _lits(av[2], acc)
+            elif str(op) == "SUBPATTERN":
+                _lits(av[3], acc)
+            elif str(op) == "BRANCH":
+                for alt in av[1]:
+                    _lits(alt, acc)
+            elif str(op) in ("ASSERT", "ASSERT_NOT"):
+                _lits(av[1], acc)
+            elif str(op) == "ATOMIC_GROUP":
+                _lits(av, acc)
+    for q in ("_strip_comments", "_parse_section_header_line"):
+        f = fn(q)
+        used = {x.id for x in ast.walk(f.node) if isinstance(x, ast.Name)}
+        pats = [c.args[0] for c in ast.walk(f.node) if isinstance(c, ast.Call) and (dotted(c.func) or "").startswith("re.") and c.args]
+        pats += [v.args[0] for k, v in m.consts.items() if k in used and isinstance(v, ast.Call) and dotted(v.func) == "re.compile" and v.args]
+        for pe in pats:
+            pv = F.try_fold(pe)
+            if not isinstance(pv, (bytes, str)):
+                continue
+            try:
+                acc: set[int] = set()
+                _lits(rp.parse(pv), acc)
+            except Exception as ex:  # noqa: BLE001
+                raise AnalysisError(f"{q}: cannot parse regular expression {pv!r}: {ex}")
+            if ord('"') not in acc:
+                continue
+            n_scanners += 1
+            rep.ob("R20.3", CFG_PY, q, f"quote-aware pattern {pv!r} is escape-aware", ord("\\") in acc,
+                   "this pattern delimits quoted strings by '\"' but has no notion of '\\': the escaped quote that _escape_subsection writes "
+                   "ends the string for it, and a following '#' or ';' is taken for a comment", pe.lineno)
     if n_scanners < 3:
-        raise AnalysisError(f"expected >= 3 quote-toggling scanners in config.py, found {n_scanners}")
+        raise AnalysisError(f"expected >= 3 quote-aware scanners (flag-toggling loops or patterns) in config.py, found {n_scanners}")
     # ---- R20.5 frozen reference of git's own value reader (config.c:parse_value): escapes it knows, whitespace it folds
     GIT_ESCAPES = set(b'ntb\\"')
     for byte, letter in sorted(W.items()):
@@ -382,4 +472,6 @@ def run(prog: Program, rep, tier="quick"):
     rep.floor("R20.1", 5)
     rep.floor("R20.2", 8)
     r20_7(prog, rep)
+    r20_8(prog, rep)
+    r20_9(prog, rep)
     rep.floor("R20.3", 6)
